@@ -159,13 +159,14 @@ class AddressMixin:
         if self.sheet and other.sheet and self.sheet != other.sheet:
             return VALUE_ERROR
 
-        min_col_idx = min_(self.col_idx, other.col_idx)
-        min_row = min_(self.row, other.row)
+        # an unbounded range (A:A, 1:1) starts at row / column 1
+        min_col_idx = min_(self.col_idx or 1, other.col_idx or 1)
+        min_row = min_(self.row or 1, other.row or 1)
 
-        max_col_idx = max_(self.col_idx + self.size.width,
-                           other.col_idx + other.size.width) - 1
-        max_row = max_(self.row + self.size.height,
-                       other.row + other.size.height) - 1
+        max_col_idx = max_((self.col_idx or 1) + self.size.width,
+                           (other.col_idx or 1) + other.size.width) - 1
+        max_row = max_((self.row or 1) + self.size.height,
+                       (other.row or 1) + other.size.height) - 1
 
         if max_col_idx < min_col_idx or max_row < min_row:
             return NULL_ERROR
